@@ -22,6 +22,13 @@ Definition run_mds_layer (a : list Z) : option (list Z) :=
   if state_ok a then option_map canon (mds_layer_impl a) else None.
 Definition run_partial_rounds (a : list Z) : option (list Z) :=
   if state_ok a then option_map canon (partial_rounds_impl a) else None.
+(* mds_partial_fast round s0..s11: one call of mds_partial_layer_fast (round < 22) *)
+Definition run_mds_partial_fast (a : list Z) : option (list Z) :=
+  match a with
+  | r :: s => if state_ok s && (0 <=? r) && (r <? 22)
+              then option_map canon (mds_partial_layer_fast_impl (Z.to_nat r) s) else None
+  | [] => None
+  end.
 (* same outputs without canonicalisation: the exact u64 representation the code produces *)
 Definition run_poseidon_raw (a : list Z) : option (list Z) :=
   if state_ok a then poseidon_impl a else None.
